@@ -12,6 +12,7 @@ static char *argreg64[] = {"%rdi", "%rsi", "%rdx", "%rcx", "%r8", "%r9"};
 static Obj *current_fn;
 
 static void gen_expr(Node *node);
+static void gen_discard(Node *node);
 static void gen_stmt(Node *node);
 
 __attribute__((format(printf, 1, 2)))
@@ -154,7 +155,7 @@ static void gen_addr(Node *node) {
     gen_expr(node->lhs);
     return;
   case ND_COMMA:
-    gen_expr(node->lhs);
+    gen_discard(node->lhs);
     gen_addr(node->rhs);
     return;
   case ND_MEMBER:
@@ -244,7 +245,9 @@ static void store(Type *ty) {
     println("  movsd %%xmm0, (%%rdi)");
     return;
   case TY_LDOUBLE:
+    // Keep the value: an assignment is an expression.
     println("  fstpt (%%rdi)");
+    println("  fldt (%%rdi)");
     return;
   }
 
@@ -388,8 +391,12 @@ static char *cast_table[][11] = {
 };
 
 static void cast(Type *from, Type *to) {
-  if (to->kind == TY_VOID)
+  if (to->kind == TY_VOID) {
+    // A discarded long double must not stay on the x87 stack.
+    if (from->kind == TY_LDOUBLE)
+      println("  fstp %%st(0)");
     return;
+  }
 
   if (to->kind == TY_BOOL) {
     cmp_zero(from);
@@ -824,11 +831,16 @@ static void gen_expr(Node *node) {
     store(node->ty);
     return;
   case ND_STMT_EXPR:
-    for (Node *n = node->body; n; n = n->next)
-      gen_stmt(n);
+    for (Node *n = node->body; n; n = n->next) {
+      // The value of the last expression statement is the result.
+      if (!n->next && n->kind == ND_EXPR_STMT)
+        gen_expr(n->lhs);
+      else
+        gen_stmt(n);
+    }
     return;
   case ND_COMMA:
-    gen_expr(node->lhs);
+    gen_discard(node->lhs);
     gen_expr(node->rhs);
     return;
   case ND_CAST:
@@ -1208,6 +1220,15 @@ static void gen_expr(Node *node) {
   error_tok(node->tok, "invalid expression");
 }
 
+// Evaluate an expression whose value is not used. A long double
+// result would otherwise stay on the x87 register stack, which
+// overflows after eight of them.
+static void gen_discard(Node *node) {
+  gen_expr(node);
+  if (node->ty && node->ty->kind == TY_LDOUBLE)
+    println("  fstp %%st(0)");
+}
+
 static void gen_stmt(Node *node) {
   println("  .loc %d %d", node->tok->file->file_no, node->tok->line_no);
 
@@ -1238,7 +1259,7 @@ static void gen_stmt(Node *node) {
     gen_stmt(node->then);
     println("%s:", node->cont_label);
     if (node->inc)
-      gen_expr(node->inc);
+      gen_discard(node->inc);
     println("  jmp .L.begin.%d", c);
     println("%s:", node->brk_label);
     return;
@@ -1319,7 +1340,7 @@ static void gen_stmt(Node *node) {
     println("  jmp .L.return.%s", current_fn->name);
     return;
   case ND_EXPR_STMT:
-    gen_expr(node->lhs);
+    gen_discard(node->lhs);
     return;
   case ND_ASM:
     println("  %s", node->asm_str);
